@@ -5,6 +5,7 @@ package main
 // gRPC, real brokers, with or without yamux multiplexing).
 
 import (
+	"testing"
 	"context"
 	"fmt"
 	"os"
@@ -117,6 +118,20 @@ func runMuxLiveness(role, kind string) (impl, pred string) {
 			serve(70)
 			time.Sleep(500 * time.Millisecond)
 		}
+	case "dial-abandoned-then-late-accept":
+		// the dialling side gives its connection up early (its call's deadline passes, the ClientConn is closed); the
+		// listener for the id shows up while the knock is still parked on the accepting side
+		_, conn, err := pingKeep(dialler, 70, 600*time.Millisecond)
+		if conn != nil {
+			conn.Close()
+		}
+		first = "err"
+		if err == nil {
+			first = "ok"
+		}
+		time.Sleep(500 * time.Millisecond)
+		serve(70)
+		time.Sleep(800 * time.Millisecond)
 	case "accept-unmatched":
 		serve(71)
 		time.Sleep(300 * time.Millisecond)
@@ -147,6 +162,75 @@ func runMuxLiveness(role, kind string) (impl, pred string) {
 		pred = "FAIL:fresh-pair-failed-after-" + kind
 	case !mainOK:
 		pred = "FAIL:main-connection-dead"
+	}
+	return impl, pred
+}
+
+// runGonePeerDial: the accepting side accepts an ID (its connection info reaches the dialling side) and goes away again —
+// it closes the listener — before the other side dials the ID, with the caller's own grpc.WithBlock() among the options.
+// The dial must end with an error within the window; afterwards a fresh pair works.
+func runGonePeerDial(dir int) (impl, pred string) {
+	p, err := newGrpcPair(false)
+	if err != nil {
+		return "setup-error", "FAIL:setup"
+	}
+	defer p.close()
+	acceptor, dialler := p.plug, p.host
+	if dir == 1 {
+		acceptor, dialler = p.host, p.plug
+	}
+	ln, err := acceptor.Accept(90)
+	if err != nil {
+		return "setup-error", "FAIL:setup-accept"
+	}
+	ln.Close()
+	time.Sleep(200 * time.Millisecond)
+	t0 := time.Now()
+	var conn *grpc.ClientConn
+	derr, hung, pp := withTimeout(9*time.Second, func() error {
+		var e error
+		conn, e = dialler.DialWithOptions(90, grpc.WithBlock())
+		return e
+	})
+	if conn != nil {
+		conn.Close()
+	}
+	first := "err"
+	switch {
+	case hung:
+		first = "hang"
+	case pp != nil:
+		first = "panic"
+	case derr == nil:
+		first = "ok"
+	}
+	lat := time.Since(t0)
+	go func() {
+		defer func() { recover() }()
+		servePingPong(acceptor, 91)
+	}()
+	time.Sleep(150 * time.Millisecond)
+	ans, c2, err := pingKeep(dialler, 91, 8*time.Second)
+	if c2 != nil {
+		defer c2.Close()
+	}
+	fresh := "ok"
+	if err != nil || ans != "91" {
+		fresh = "failed"
+	}
+	impl = fmt.Sprintf("first=%s fresh=%s", first, fresh)
+	pred = "ok"
+	switch {
+	case first == "hang":
+		pred = "FAIL:blocking-dial-to-gone-peer-never-returned"
+	case first == "panic":
+		pred = "FAIL:dial-panicked"
+	case first == "ok":
+		pred = "FAIL:dial-to-closed-listener-succeeded"
+	case lat > 6500*time.Millisecond:
+		pred = "FAIL:dial-to-gone-peer-not-bounded"
+	case fresh != "ok":
+		pred = "FAIL:fresh-pair-failed-after-gone-peer"
 	}
 	return impl, pred
 }
@@ -472,6 +556,15 @@ func init() {
 			q := r.fork(uint64(1000 + i))
 			hs = append(hs, compose(fmt.Sprintf("gd%d", i), q, []motif{ms[10], ms[6], ms[12], ms[13]}, 2+q.intn(2), true))
 		}
+		// the two directions have ID spaces of their own (every broker's NextId counts from 1): the same NUMBER in flight in
+		// both directions at once, dial-first and accept-first
+		hs = append(hs, &history{name: "same-number-dial-first", ops: []hop{
+			{0, 'd', 400, 0, "matched"}, {300, 'a', 400, 1, "matched"}, {600, 'a', 400, 0, "matched"}, {700, 'd', 400, 1, "matched"}}})
+		hs = append(hs, &history{name: "same-number-accept-first", ops: []hop{
+			{0, 'a', 401, 0, "matched"}, {300, 'a', 401, 1, "matched"}, {600, 'd', 401, 0, "matched"}, {700, 'd', 401, 1, "matched"}}})
+		hs = append(hs, &history{name: "same-number-mirrored", ops: []hop{
+			{0, 'a', 402, 1, "matched"}, {300, 'a', 402, 0, "matched"}, {600, 'd', 402, 1, "matched"}, {700, 'd', 402, 0, "matched"},
+			{900, 'd', 403, 1, "matched"}, {1200, 'a', 403, 0, "matched"}, {1500, 'a', 403, 1, "matched"}, {1600, 'd', 403, 0, "matched"}}})
 		results := make([][]opResult, len(hs))
 		errs := make([]error, len(hs))
 		parallel(len(hs), 32, func(i int) { results[i], errs[i] = runGrpcHistory(hs[i]) })
@@ -482,6 +575,18 @@ func init() {
 			impl, pred := runGrpcBurst(120, dir)
 			o.emit(fmt.Sprintf("!C07.burst n=120 dir=%d", dir), impl, pred)
 		}
+		// the premise "distinct IDs": concurrent reservations on one GRPCBroker never collide
+		func() {
+			defer func() {
+				if p := recover(); p != nil {
+					o.emit("!C07.ids kind=grpc", "panic", "FAIL:setup")
+				}
+			}()
+			var tb testing.TB
+			client, _ := plugin.TestPluginGRPCConn(tb, false, map[string]plugin.Plugin{})
+			idsDistinct(o, "!C07.ids kind=grpc", client.VerifBroker().NextId)
+			client.Close()
+		}()
 		o.note("grpc histories=%d", len(hs))
 	})
 }
